@@ -396,6 +396,7 @@ pub struct ArenaStats {
     pub index_reuses: u64,
     pub max_nodes: usize,
     pub nontrivial_histories: u64,
+    pub event_digest_sum: u64,
     #[serde(skip)]
     pub shapes: BTreeSet<u64>,
     #[serde(skip)]
@@ -412,6 +413,7 @@ impl ArenaStats {
         self.index_reuses += o.index_reuses;
         self.max_nodes = self.max_nodes.max(o.max_nodes);
         self.nontrivial_histories += o.nontrivial_histories;
+        self.event_digest_sum = self.event_digest_sum.wrapping_add(o.event_digest_sum);
         self.shapes.extend(o.shapes);
         self.history_hashes.extend(o.history_hashes);
     }
@@ -610,6 +612,7 @@ fn run_history<const K: usize>(
         *local.ops_by_kind_outcome.entry(key.clone()).or_default() += 1;
         local.ops += 1;
         hist_hash.str(&key);
+        hist_hash.str(&format!("{op:?}{real:?}"));
         if !matches!(
             real,
             Outcome::OkIndex(_) | Outcome::OkValue(_) | Outcome::OkCount(_) | Outcome::OkNode { .. }
@@ -680,6 +683,11 @@ fn run_history<const K: usize>(
 
     if let Some(stats) = stats {
         local.histories = 1;
+        // digest of the whole event log of this history: (op, outcome) per step, final shape, verdict
+        let mut d = hist_hash;
+        d.u64(shape_hash(&model));
+        d.str(&format!("{:?}", violation.as_ref().map(|v| v.key())));
+        local.event_digest_sum = d.finish();
         if had_failure && had_reuse {
             local.nontrivial_histories = 1;
             local.history_hashes.insert(hist_hash.finish());
